@@ -2,6 +2,7 @@
 //! values; every verdict is taken by TLC from the TLA+ specifications in /verif/spec.
 mod alloc;
 mod gen;
+mod par;
 mod policy;
 mod reader;
 mod source;
@@ -150,6 +151,20 @@ fn main() {
     match args[0].as_str() {
         "reader" => cmd_reader(&args[1..]),
         "replay-reader" => cmd_replay_reader(&args[1..]),
+        "par-record" => {
+            let a = &args[1..];
+            let cfgs: Value = serde_json::from_str(&std::fs::read_to_string(arg(a, "--cfgs").unwrap_or_else(|| usage())).unwrap()).unwrap();
+            par::cmd_record(&cfgs, &arg(a, "--out").unwrap_or_else(|| usage()), arg(a, "--seed").map(|s| s.parse().unwrap()).unwrap_or(1), arg(a, "--reps").map(|s| s.parse().unwrap()).unwrap_or(1));
+        }
+        "par-steer" => {
+            let a = &args[1..];
+            par::cmd_steer(&arg(a, "--sched").unwrap_or_else(|| usage()), &arg(a, "--out").unwrap_or_else(|| usage()));
+        }
+        "par-api" => {
+            let a = &args[1..];
+            let suite: Value = serde_json::from_str(&std::fs::read_to_string(arg(a, "--suite").unwrap_or_else(|| usage())).unwrap()).unwrap();
+            par::cmd_api(&suite, &arg(a, "--out").unwrap_or_else(|| usage()), arg(a, "--seed").map(|s| s.parse().unwrap()).unwrap_or(1));
+        }
         _ => usage(),
     }
 }
